@@ -1014,6 +1014,15 @@ def handler_nulls(check: Check, repo: Repo, mods: list[Module], rule: str = "HAN
                         if isinstance(s, ast.Expr) and isinstance(s.value, ast.Call) and last_attr(s.value) == "append" \
                                 and s.value.args and isinstance(s.value.args[0], ast.Constant) and s.value.args[0].value is None:
                             ok, why = True, "appends None to the result list"
+                    if not ok and not isinstance(h.body[-1], (ast.Return, ast.Raise, ast.Continue, ast.Break)) and not t.finalbody:
+                        # the handler falls through: what follows the try statement decides
+                        holder = parent(t)
+                        for field in ("body", "orelse", "finalbody"):
+                            blk = getattr(holder, field, None)
+                            if isinstance(blk, list) and t in blk:
+                                nxt = blk[blk.index(t) + 1: blk.index(t) + 2]
+                                if nxt and isinstance(nxt[0], ast.Return) and (nxt[0].value is None or (isinstance(nxt[0].value, ast.Constant) and nxt[0].value.value is None)):
+                                    ok, why = True, "falls through to the `return None` that follows the try"
                     check.ob(rule, h, f"{qualname_of(h)}: handler at line +{h.lineno - fn.lineno}", ok, why)
     check.floor(rule, 5, "field-error handlers")
 
@@ -2432,7 +2441,7 @@ def visited_then_collected(check: Check, repo: Repo, rule: str = "VISITED-COLLEC
                  "the fragment is marked visited, but the loop can move on without collecting it (line "
                  f"{next((nd.ast.lineno for nd in path[1:] if nd.ast is not None and hasattr(nd.ast, 'lineno')), '?')}): "
                  "a later spread of the same fragment is then skipped as already visited")
-    check.floor(rule, 2, "visited-fragment stores (deferred and non-deferred)")
+    check.floor(rule, 1, "visited-fragment stores")
 
 
 def once_flag_first(check: Check, repo: Repo, rule: str = "ONCE-FLAG-FIRST") -> None:
